@@ -37,7 +37,7 @@ fn manager_step(with_data: bool) {
             // only a checksum mismatch can refuse it
             assert!(with_data && crc != v10);
             assert!(inner.storage.ack_tick() != Some(12));
-            kani::cover!(true, "refused");
+            kani::cover!(with_data, "refused");
         }
     }
     core::mem::forget(inner);
